@@ -23,6 +23,9 @@ func jsHex(c byte) int {
 // refJSLiteral decodes the body of an ECMAScript string literal delimited by quote; ok=false
 // when the body is not a single well-formed literal or could terminate a script element.
 func refJSLiteral(t string, quote byte) (string, bool) {
+	if !utf8.ValidString(t) {
+		return "", false // a script is UTF-8 text: a literal holding part of a character denotes U+FFFD
+	}
 	var out []byte
 	for i := 0; i < len(t); i++ {
 		c := t[i]
@@ -75,6 +78,42 @@ func refJSLiteral(t string, quote byte) (string, bool) {
 	return string(out), true
 }
 
+// refJSAppends decodes a sequence of statements `output += '...';` (one or several: a generator
+// may split long text) and returns the concatenation of what the literals denote.
+func refJSAppends(out string) (string, bool) {
+	const pre, suf = "output += '", "';\n"
+	var text []byte
+	n := 0
+	for len(out) > 0 {
+		if len(out) < len(pre) || out[:len(pre)] != pre {
+			return "", false
+		}
+		out = out[len(pre):]
+		end := -1
+		for i := 0; i < len(out); i++ {
+			if out[i] == '\\' {
+				i++
+				continue
+			}
+			if out[i] == '\'' {
+				end = i
+				break
+			}
+		}
+		if end < 0 || len(out)-end < len(suf) || out[end:end+len(suf)] != suf {
+			return "", false
+		}
+		dec, ok := refJSLiteral(out[:end], '\'')
+		if !ok {
+			return "", false
+		}
+		text = append(text, dec...)
+		out = out[end+len(suf):]
+		n++
+	}
+	return string(text), n > 0
+}
+
 func jsSymText(n, extra int) string {
 	s := verifString(n)
 	for i := 0; i < len(s); i++ {
@@ -99,13 +138,15 @@ var jsSites = []string{"raw text", "string literal", "map literal key", "css suf
 
 // H_jsLiteral: the JavaScript emitted for a template string (site) whose characters are symbolic
 // is one well-formed literal that denotes exactly those characters.
-func H_jsLiteral(site, n, extra int) {
-	text := jsSymText(n, extra)
+func H_jsLiteral(site, n, extra int) { jsCheckText(site, jsSymText(n, extra)) }
+
+func jsCheckText(site int, text string) {
 	var buf bytes.Buffer
 	s := &state{wr: &buf, bufferName: "output", funcsCalled: map[string]string{}, funcsInFile: map[string]bool{}}
 	s.scope.push()
 	var body string
 	var quote byte = '\''
+	appends := false // the site emits append statements (possibly several)
 	cut := func(prefix, suffix string) {
 		out := buf.String()
 		verifObserve("js", out)
@@ -116,7 +157,7 @@ func H_jsLiteral(site, n, extra int) {
 	switch site {
 	case 0:
 		s.walk(&ast.RawTextNode{Text: []byte(text)})
-		cut("output += '", "';\n")
+		appends = true
 	case 1:
 		s.walk(&ast.StringNode{Quoted: "<unused>", Value: text})
 		cut("'", "'")
@@ -126,18 +167,42 @@ func H_jsLiteral(site, n, extra int) {
 		quote = '"'
 	case 3:
 		s.walk(&ast.CssNode{Suffix: text})
-		cut("output += '", "';\n")
+		appends = true
 	case 4:
 		s.walk(&ast.GlobalNode{Name: "G", Value: data.String(text)})
 		cut("'", "'")
 	case 5:
 		s.walk(&ast.MsgNode{Body: &ast.ListNode{Nodes: []ast.Node{&ast.RawTextNode{Text: []byte(text)}}}})
-		cut("output += '", "';\n")
+		appends = true
 	}
 	verifObserve("text", text)
+	if appends {
+		out := buf.String()
+		verifObserve("js", out)
+		dec, ok := refJSAppends(out)
+		verifAssert(ok, "emitted JavaScript string literal is malformed or not script-safe: "+jsSites[site])
+		verifAssert(dec == text, "emitted JavaScript string literal does not denote the original characters: "+jsSites[site])
+		return
+	}
 	dec, ok := refJSLiteral(body, quote)
 	verifAssert(ok, "emitted JavaScript string literal is malformed or not script-safe: "+jsSites[site])
 	verifAssert(dec == text, "emitted JavaScript string literal does not denote the original characters: "+jsSites[site])
+}
+
+var jsLongBase = []int{64, 128, 256, 512, 1024, 2048, 4096}
+var jsLongChars = []string{"\u20ac", "\U0001F600", "\u2028", "\u00e9"}
+
+// H_jsLong: long text: a padding of jsLongBase[b]-4+d bytes (d in 0..5), then a multi-byte
+// character (index ch), then one symbolic ASCII byte, so that the character straddles or
+// touches every power-of-two offset 64..4096; sites as in H_jsLiteral.
+func H_jsLong(site, b, d, ch int) {
+	pad := make([]byte, jsLongBase[b]-4+d)
+	for i := range pad {
+		pad[i] = 'a' + byte(i%26)
+	}
+	tail := verifString(1)
+	verifAssume(tail[0] < 0x80)
+	jsCheckText(site, string(pad)+jsLongChars[ch]+tail)
 }
 
 func jsCount(s, sub string) int {
